@@ -1,23 +1,33 @@
 (* Second batch at the level of apply_op / update_op (Model/Updater.v):
    C05 (actor's record), C06 (part of the invariant), C19 (ignored fields never owned,
    exclusion sets), C20 (records at a vanished version are dropped).
-   Statements as in Proofs/UpdaterLaws2_statements.v; every theorem is proved with Qed. *)
+   The hypotheses on the comparing walker, the field-set walker and the converter are
+   RELATIVE to well-formed values (compare_ok_wf, fs_ok_wf, conv_wf): well-formedness of
+   the objects is threaded through apply_op / update_op (merge, prune, conversions).
+   They are satisfiable: see the last section (ex_config).  Every theorem is proved with Qed. *)
 From Coq Require Import List ZArith String Bool Arith Lia.
 From SMD Require Import Model.Value Model.Order Model.PathElem Model.PathSet Model.Schema
-  Model.Walk Model.FieldSet Model.Merge Model.Compare Model.Matcher Model.Reconcile Model.Updater
-  Spec.PathsAsSets Proofs.OrderLaws Proofs.PathSetLaws Proofs.UpdaterLaws.
-From SMD Require Proofs.PesLaws Proofs.TrieBase.
+  Model.Walk Model.FieldSet Model.Remove Model.Merge Model.Compare Model.Matcher Model.Reconcile
+  Model.Updater Spec.PathsAsSets Proofs.OrderLaws Proofs.PathSetLaws Proofs.UpdaterLaws.
+(* Spec.Examples opens string_scope when imported: it is only required *)
+From SMD Require Spec.Examples Proofs.PesLaws Proofs.TrieBase Proofs.SchemaOk Proofs.ValidateLaws Proofs.CompareLaws
+  Proofs.MergeWf Proofs.RemoveWf Proofs.FieldSetWf.
 Import ListNotations.
 Open Scope bool_scope.
 
-(* every comparison the updater can make yields well-formed sets (discharged elsewhere
-   from well-formedness of the objects: CompareLaws.compare_sets_ok) *)
-Definition compare_always_ok (c : config) : Prop :=
-  forall a b cmp, compare_tv c a b = Some cmp -> cmp_ok cmp.
+(* every comparison of well-formed objects yields well-formed sets (CompareLaws.compare_sets_ok
+   discharges it for a configuration whose schemas are schema_ok) *)
+Definition compare_ok_wf (c : config) : Prop :=
+  forall a b cmp, wf_value (snd a) = true -> wf_value (snd b) = true ->
+    compare_tv c a b = Some cmp -> cmp_ok cmp.
 
-(* every field set the updater computes from an object is well formed (FieldSetLaws) *)
-Definition fs_always_ok (c : config) : Prop :=
-  forall o fs, to_fs c o = Some fs -> ps_ok fs = true.
+(* the field set of a well-formed object is well formed (FieldSetWf.to_field_set_ok) *)
+Definition fs_ok_wf (c : config) : Prop :=
+  forall o fs, wf_value (snd o) = true -> to_fs c o = Some fs -> ps_ok fs = true.
+
+(* the converter maps well-formed values to well-formed values *)
+Definition conv_wf (c : config) : Prop :=
+  forall n from to v v', wf_value v = true -> cfg_convert c n from to v = COk v' -> wf_value v' = true.
 
 (* ================= auxiliary: association lists, removal and append ================= *)
 
@@ -114,10 +124,11 @@ Proof.
 Qed.
 
 Lemma ustep_inv : forall c old new w mf st mr st',
-  compare_always_ok c -> filters_ok c -> uinv mf st -> ps_ok (mr_set (snd mr)) = true ->
+  compare_ok_wf c -> conv_wf c -> wf_value (snd old) = true -> wf_value (snd new) = true ->
+  filters_ok c -> uinv mf st -> ps_ok (mr_set (snd mr)) = true ->
   ustep c old new w (UOk st) mr = UOk st' -> uinv mf st'.
 Proof.
-  intros c old new w mf st mr st' Hcok Hfok Hinv Hrok H. unfold ustep in H.
+  intros c old new w mf st mr st' Hcok Hcv Hwo Hwn Hfok Hinv Hrok H. unfold ustep in H.
   destruct (String.eqb (fst mr) w).
   { inversion H; subst; exact Hinv. }
   destruct (assoc_get (mr_ver (snd mr)) (us_versions st)) as [cmp|] eqn:Hget.
@@ -130,15 +141,17 @@ Proof.
   { intros n1. destruct Hinv as [Hsub [Hv [Hc Hr]]]. unfold uinv.
     cbn [us_managers us_versions us_conflicts us_removed].
     split; [apply sub_assoc_del; exact Hsub|]. split; [exact Hv|]. split; assumption. }
-  destruct (cfg_convert c (us_n st) (fst old) (mr_ver (snd mr)) (snd old)) as [vold| |];
+  destruct (cfg_convert c (us_n st) (fst old) (mr_ver (snd mr)) (snd old)) as [vold| |] eqn:Eo;
     [|inversion H; subst; apply Hdel|discriminate].
-  destruct (cfg_convert c (S (us_n st)) (fst new) (mr_ver (snd mr)) (snd new)) as [vnew| |];
+  destruct (cfg_convert c (S (us_n st)) (fst new) (mr_ver (snd mr)) (snd new)) as [vnew| |] eqn:En;
     [|inversion H; subst; apply Hdel|discriminate].
   destruct (compare_tv c (mr_ver (snd mr), vold) (mr_ver (snd mr), vnew)) as [cmp1|] eqn:Hcmp;
     [|discriminate].
   destruct (ignore_filter_for c (mr_ver (snd mr))) as [f1|] eqn:Hf; [|discriminate].
   assert (cmp_ok (filter_cmp f1 cmp1)) as Hc1.
-  { eapply filter_cmp_ok; [exact Hfok|exact Hf|]. eapply Hcok; exact Hcmp. }
+  { eapply filter_cmp_ok; [exact Hfok|exact Hf|]. eapply Hcok; [| |exact Hcmp]; cbn [snd].
+    - eapply Hcv; [exact Hwo|exact Eo].
+    - eapply Hcv; [exact Hwn|exact En]. }
   eapply with_cmp_inv; [|exact Hc1|exact Hrok|exact H].
   destruct Hinv as [Hsub [Hv [Hc Hr]]]. unfold uinv.
   cbn [us_managers us_versions us_conflicts us_removed].
@@ -147,15 +160,16 @@ Proof.
 Qed.
 
 Lemma fold_ustep_inv : forall c old new w mf l st st',
-  compare_always_ok c -> filters_ok c ->
+  compare_ok_wf c -> conv_wf c -> wf_value (snd old) = true -> wf_value (snd new) = true ->
+  filters_ok c ->
   (forall mr, In mr l -> ps_ok (mr_set (snd mr)) = true) ->
   uinv mf st -> fold_left (ustep c old new w) l (UOk st) = UOk st' -> uinv mf st'.
 Proof.
-  intros c old new w mf l. induction l as [|a l IH]; intros st st' Hcok Hfok Hl Hinv H.
+  intros c old new w mf l. induction l as [|a l IH]; intros st st' Hcok Hcv Hwo Hwn Hfok Hl Hinv H.
   - inversion H; subst; exact Hinv.
   - cbn [fold_left] in H. destruct (ustep c old new w (UOk st) a) as [st1|e] eqn:E.
-    + eapply (IH st1 st' Hcok Hfok); [|
-        eapply ustep_inv; [exact Hcok|exact Hfok|exact Hinv| |exact E] |exact H].
+    + eapply (IH st1 st' Hcok Hcv Hwo Hwn Hfok); [|
+        eapply ustep_inv; [exact Hcok|exact Hcv|exact Hwo|exact Hwn|exact Hfok|exact Hinv| |exact E] |exact H].
       * intros mr Hin. apply Hl. right; exact Hin.
       * apply Hl. left; reflexivity.
     + rewrite fold_ustep_err in H. discriminate.
@@ -237,7 +251,8 @@ Qed.
 (* the strong form: every record of the result, the actor's included, is a shrunk record
    of the input; and the returned comparison is the filtered comparison of old and new *)
 Lemma update_core_shrinks_all : forall c n old new ver mf w force mf' cmp n',
-  mf_ok mf -> compare_always_ok c -> filters_ok c ->
+  mf_ok mf -> compare_ok_wf c -> conv_wf c -> wf_value (snd old) = true -> wf_value (snd new) = true ->
+  filters_ok c ->
   update_core c n old new ver mf w force = UOk (mf', cmp, n') ->
   (exists cmp0 f0, compare_tv c old new = Some cmp0 /\ ignore_filter_for c ver = Some f0 /\
                    cmp = filter_cmp f0 cmp0 /\ cmp_ok cmp) /\
@@ -245,12 +260,12 @@ Lemma update_core_shrinks_all : forall c n old new ver mf w force mf' cmp n',
   (forall m r', mf_get m mf' = Some r' -> ps_empty (mr_set r') = false) /\
   forall m r', mf_get m mf' = Some r' -> exists r, mf_get m mf = Some r /\ shrinks r' r.
 Proof.
-  intros c n old new ver mf w force mf' cmp n' Hok Hcok Hfok H.
+  intros c n old new ver mf w force mf' cmp n' Hok Hcok Hcv Hwo Hwn Hfok H.
   rewrite update_core_unfold in H.
   destruct (compare_tv c old new) as [cmp0|] eqn:Hcmp; [|discriminate].
   destruct (ignore_filter_for c ver) as [f0|] eqn:Hf; [|discriminate].
   assert (cmp_ok (filter_cmp f0 cmp0)) as Hc0.
-  { eapply filter_cmp_ok; [exact Hfok|exact Hf|]. eapply Hcok; exact Hcmp. }
+  { eapply filter_cmp_ok; [exact Hfok|exact Hf|]. eapply Hcok; [exact Hwo|exact Hwn|exact Hcmp]. }
   destruct (ufold c n old new ver mf w (filter_cmp f0 cmp0)) as [st|e] eqn:E; [|discriminate].
   unfold ufinish in H.
   match type of H with (if ?b then _ else _) = _ => destruct b end; [discriminate|].
@@ -258,7 +273,7 @@ Proof.
   split.
   { exists cmp0, f0. repeat split; try reflexivity; apply Hc0. }
   apply (upost_shrinks mf st Hok).
-  unfold ufold in E. eapply fold_ustep_inv; [exact Hcok|exact Hfok| | |exact E].
+  unfold ufold in E. eapply fold_ustep_inv; [exact Hcok|exact Hcv|exact Hwo|exact Hwn|exact Hfok| | |exact E].
   - intros mr Hin. destruct Hok as [_ Hall]. rewrite forallb_forall in Hall. exact (Hall mr Hin).
   - unfold uinv. cbn [us_managers us_versions us_conflicts us_removed].
     split; [split; [apply Hok|intros m r Hg; exact Hg]|].
@@ -270,7 +285,8 @@ Qed.
 (* records of managers other than the actor only shrink, keep version and flag, and no
    other manager appears *)
 Theorem update_core_others_shrink : forall c n old new ver mf w force mf' cmp n',
-  mf_ok mf -> compare_always_ok c ->
+  mf_ok mf -> compare_ok_wf c -> conv_wf c ->
+  wf_value (snd old) = true -> wf_value (snd new) = true ->
   (forall v f, ignore_filter_for c v = Some (Some f) -> exists ex, f = FExclude ex /\ ps_ok ex = true) ->
   update_core c n old new ver mf w force = UOk (mf', cmp, n') ->
   mf_ok mf' /\
@@ -279,8 +295,8 @@ Theorem update_core_others_shrink : forall c n old new ver mf w force mf' cmp n'
     exists r, mf_get m mf = Some r /\ mr_ver r' = mr_ver r /\ mr_applied r' = mr_applied r /\
       forall p, wf_path p = true -> ps_has p (mr_set r') = true -> ps_has p (mr_set r) = true.
 Proof.
-  intros c n old new ver mf w force mf' cmp n' Hok Hcok Hfok H.
-  destruct (update_core_shrinks_all c n old new ver mf w force mf' cmp n' Hok Hcok Hfok H)
+  intros c n old new ver mf w force mf' cmp n' Hok Hcok Hcv Hwo Hwn Hfok H.
+  destruct (update_core_shrinks_all c n old new ver mf w force mf' cmp n' Hok Hcok Hcv Hwo Hwn Hfok H)
     as [_ [Hok' [Hne Hall]]].
   split; [exact Hok'|]. split; [exact Hne|].
   intros m r' _ Hg. destruct (Hall m r' Hg) as [r [Hr [Hv [Ha [_ Hsub]]]]].
@@ -549,11 +565,60 @@ Proof.
   - apply (TrieBase.ps_has_nonempty _ p). rewrite (HU p Hp), (HR p Hp), Hhas, Hpre. reflexivity.
 Qed.
 
+(* ================= well-formedness of the objects along Apply ================= *)
+
+Lemma convert_wf : forall c n o ver v n', conv_wf c -> wf_value (snd o) = true ->
+  convert c n o ver = (COk v, n') -> wf_value v = true.
+Proof.
+  intros c n o ver v n' Hcv Ho H. unfold convert in H. inversion H as [[H1 H2]].
+  eapply Hcv; [exact Ho|exact H1].
+Qed.
+
+Lemma remove_tv_wf : forall c o items, wf_value (snd o) = true -> wf_value (snd (remove_tv c o items)) = true.
+Proof. intros c o items Ho. unfold remove_tv. cbn [snd]. apply RemoveWf.remove_wf. exact Ho. Qed.
+
+Lemma add_back_dangling_wf : forall c n merged pruned last p' n',
+  conv_wf c -> wf_value (snd merged) = true ->
+  add_back_dangling c n merged pruned last = UOk (p', n') -> wf_value (snd p') = true.
+Proof.
+  intros c n merged pruned last p' n' Hcv Hm H. unfold add_back_dangling in H.
+  destruct (convert c n pruned (mr_ver last)) as [r1 n1].
+  destruct r1 as [pv| |]; [|inversion H; subst; exact Hm|discriminate].
+  destruct (to_fs c (mr_ver last, pv)) as [prunedSet|]; [|discriminate].
+  destruct (to_fs c merged) as [mergedSet|]; [|discriminate].
+  inversion H; subst p' n'. apply remove_tv_wf. exact Hm.
+Qed.
+
+Lemma prune_wf : forall c n merged mf applying last pruned n',
+  conv_wf c -> wf_value (snd merged) = true ->
+  prune c n merged mf applying last = UOk (pruned, n') -> wf_value (snd pruned) = true.
+Proof.
+  intros c n merged mf applying last pruned n' Hcv Hm H. unfold prune in H.
+  destruct last as [last|]; [|inversion H; subst; exact Hm].
+  destruct (ps_empty (mr_set last)); [inversion H; subst; exact Hm|].
+  destruct (convert c n merged (mr_ver last)) as [r1 n1] eqn:E1.
+  destruct r1 as [mv| |]; [|inversion H; subst; exact Hm|discriminate].
+  pose proof (convert_wf c n merged (mr_ver last) mv n1 Hcv Hm E1) as Hmv.
+  destruct (add_back_owned c n1 (mr_ver last, mv)
+              (remove_tv c (mr_ver last, mv) (en c (mr_ver last) (mr_set last))) (mr_ver last) mf)
+    as [[pruned1 n2]|e] eqn:E2; [|discriminate].
+  destruct (add_back_dangling c n2 (mr_ver last, mv) pruned1 last) as [[pruned2 n3]|e] eqn:E3;
+    [|discriminate].
+  pose proof (add_back_dangling_wf c n2 (mr_ver last, mv) pruned1 last pruned2 n3 Hcv Hmv E3) as Hp2.
+  match type of H with context [convert c n3 pruned2 ?target] =>
+    destruct (convert c n3 pruned2 target) as [r4 n4] eqn:E4
+  end.
+  destruct r4 as [v| |]; [|discriminate|discriminate].
+  inversion H; subst pruned n'. cbn [snd].
+  eapply convert_wf; [exact Hcv|exact Hp2|exact E4].
+Qed.
+
 (* ================= C05: the actor's record ================= *)
 
-Lemma compare_always_ok_at : forall c a b, compare_always_ok c ->
+Lemma compare_ok_wf_at : forall c a b, compare_ok_wf c ->
+  wf_value (snd a) = true -> wf_value (snd b) = true ->
   forall cmp0, compare_tv c a b = Some cmp0 -> cmp_ok cmp0.
-Proof. intros c a b H cmp0 Hc. exact (H a b cmp0 Hc). Qed.
+Proof. intros c a b H Ha Hb cmp0 Hc. exact (H a b cmp0 Ha Hb Hc). Qed.
 
 Lemma mf_set_ok : forall m r mf, mf_ok mf -> ps_ok (mr_set r) = true -> mf_ok (mf_set m r mf).
 Proof.
@@ -594,34 +659,55 @@ Lemma mf_get_del : forall m' m mf, sorted_keys mf = true ->
   mf_get m' (mf_del m mf) = if String.eqb m' m then None else mf_get m' mf.
 Proof. intros m' m mf Hs. unfold mf_get, mf_del. apply assoc_get_remove. exact Hs. Qed.
 
+(* the common prefix of Apply: reconcile, merge, field set, filter, prune, update_core *)
+Lemma apply_op_inv : forall c live cfg ver mf mf0 n0 mgr force o mf',
+  conv_wf c -> wf_value (snd live) = true -> wf_value (snd cfg) = true ->
+  reconcile_managed c O live mf = UOk (mf0, n0) ->
+  apply_op c live cfg ver mf mgr force = UOk (o, mf') ->
+  exists set0 f pruned n1 cmp n2,
+    to_fs c cfg = Some set0 /\ ignore_filter_for c ver = Some f /\
+    wf_value (snd pruned) = true /\
+    update_core c n1 live pruned ver (mf_set mgr (mkRec (filter_set f set0) ver true) mf0) mgr force
+      = UOk (mf', cmp, n2).
+Proof.
+  intros c live cfg ver mf mf0 n0 mgr force o mf' Hcv Hwl Hwc Hrec H.
+  unfold apply_op in H. rewrite Hrec in H.
+  destruct (merge (schema_of c (fst live)) (tr_of c (fst live)) (snd live) (snd cfg))
+    as [[nv|]|] eqn:Hmerge; [| discriminate | discriminate].
+  pose proof (MergeWf.merge_wf _ _ _ _ _ Hwl Hwc Hmerge) as Hnv.
+  destruct (to_fs c cfg) as [set0|] eqn:Hfs; [|discriminate].
+  destruct (ignore_filter_for c ver) as [f|] eqn:Hf; [|discriminate].
+  destruct (prune c n0 (fst live, nv) (mf_set mgr (mkRec (filter_set f set0) ver true) mf0) mgr
+              (mf_get mgr mf0)) as [[pruned n1]|e] eqn:Hpr; [|discriminate].
+  pose proof (prune_wf c n0 (fst live, nv) _ _ _ _ _ Hcv Hnv Hpr) as Hwp.
+  destruct (update_core c n1 live pruned ver (mf_set mgr (mkRec (filter_set f set0) ver true) mf0) mgr force)
+    as [[[mf2 cmp] n2]|e] eqn:Hupd; [|discriminate].
+  assert (mf' = mf2) as Hmf'.
+  { destruct (negb (cfg_return_input_on_noop c) && veqb (snd live) (snd pruned));
+      inversion H; reflexivity. }
+  subst mf'. exists set0, f, pruned, n1, cmp, n2.
+  split; [reflexivity|]. split; [reflexivity|]. split; [exact Hwp|exact Hupd].
+Qed.
+
 Theorem apply_op_actor_record : forall c live cfg ver mf mf0 n0 mgr force o mf',
-  no_ignore c -> compare_always_ok c -> fs_always_ok c ->
+  no_ignore c -> compare_ok_wf c -> fs_ok_wf c -> conv_wf c ->
+  wf_value (snd live) = true -> wf_value (snd cfg) = true ->
   reconcile_managed c O live mf = UOk (mf0, n0) -> mf_ok mf0 -> single_version ver mf0 ->
   apply_op c live cfg ver mf mgr force = UOk (o, mf') ->
   exists fs, to_fs c cfg = Some fs /\
     mf_get mgr mf' = (if ps_empty fs then None else Some (mkRec fs ver true)).
 Proof.
-  intros c live cfg ver mf mf0 n0 mgr force o mf' Hni Hcok Hfsok Hrec Hok0 Hsv H.
-  unfold apply_op in H. rewrite Hrec in H.
-  destruct (merge (schema_of c (fst live)) (tr_of c (fst live)) (snd live) (snd cfg))
-    as [[nv|]|]; [| discriminate | discriminate].
-  destruct (to_fs c cfg) as [set0|] eqn:Hfs; [|discriminate].
-  rewrite (no_ignore_filter c ver Hni) in H. cbn [filter_set] in H.
-  destruct (prune c n0 (fst live, nv) (mf_set mgr (mkRec set0 ver true) mf0) mgr (mf_get mgr mf0))
-    as [[pruned n1]|e]; [|discriminate].
-  destruct (update_core c n1 live pruned ver (mf_set mgr (mkRec set0 ver true) mf0) mgr force)
-    as [[[mf2 cmp] n2]|e] eqn:Hupd; [|discriminate].
-  assert (mf' = mf2) as Hmf'.
-  { destruct (negb (cfg_return_input_on_noop c) && veqb (snd live) (snd pruned));
-      inversion H; reflexivity. }
-  subst mf'. clear H.
-  exists set0. split; [reflexivity|].
-  pose proof (Hfsok cfg set0 Hfs) as Hset0.
+  intros c live cfg ver mf mf0 n0 mgr force o mf' Hni Hcok Hfsok Hcv Hwl Hwc Hrec Hok0 Hsv H.
+  destruct (apply_op_inv c live cfg ver mf mf0 n0 mgr force o mf' Hcv Hwl Hwc Hrec H)
+    as [set0 [f [pruned [n1 [cmp [n2 [Hfs [Hf [Hwp Hupd]]]]]]]]].
+  rewrite (no_ignore_filter c ver Hni) in Hf. inversion Hf; subst f. cbn [filter_set] in Hupd.
+  exists set0. split; [exact Hfs|].
+  pose proof (Hfsok cfg set0 Hwc Hfs) as Hset0.
   assert (mf_ok (mf_set mgr (mkRec set0 ver true) mf0)) as Hok1 by (apply mf_set_ok; assumption).
   assert (single_version ver (mf_set mgr (mkRec set0 ver true) mf0)) as Hsv1
     by (apply mf_set_single; [assumption|reflexivity]).
-  destruct (update_core_records c n1 live pruned ver _ mgr force mf2 cmp n2 Hni Hsv1 Hok1
-              (compare_always_ok_at c live pruned Hcok) Hupd) as [_ [_ [_ [_ [_ [Hw _]]]]]].
+  destruct (update_core_records c n1 live pruned ver _ mgr force mf' cmp n2 Hni Hsv1 Hok1
+              (compare_ok_wf_at c live pruned Hcok Hwl Hwp) Hupd) as [_ [_ [_ [_ [_ [Hw _]]]]]].
   rewrite Hw. rewrite mf_get_set_same. reflexivity.
 Qed.
 
@@ -643,7 +729,8 @@ Proof.
 Qed.
 
 Theorem update_op_actor_record : forall c live new ver mf mf0 n0 mgr o mf',
-  no_ignore c -> compare_always_ok c ->
+  no_ignore c -> compare_ok_wf c ->
+  wf_value (snd live) = true -> wf_value (snd new) = true ->
   reconcile_managed c O live mf = UOk (mf0, n0) -> mf_ok mf0 -> single_version ver mf0 ->
   update_op c live new ver mf mgr = UOk (o, mf') ->
   o = new /\
@@ -656,13 +743,13 @@ Theorem update_op_actor_record : forall c live new ver mf mf0 n0 mgr o mf',
     | None => forall p, wf_path p = true -> p <> [] -> after p = false
     end.
 Proof.
-  intros c live new ver mf mf0 n0 mgr o mf' Hni Hcok Hrec Hok0 Hsv H.
+  intros c live new ver mf mf0 n0 mgr o mf' Hni Hcok Hwl Hwn Hrec Hok0 Hsv H.
   unfold update_op in H. rewrite Hrec in H.
   destruct (update_core c n0 live new ver mf0 mgr true) as [[[mf1 cmp] n1]|e] eqn:Hupd; [|discriminate].
   rewrite (no_ignore_filter c ver Hni) in H. cbn [filter_set] in H.
   destruct (update_core_records c n0 live new ver mf0 mgr true mf1 cmp n1 Hni Hsv Hok0
-              (compare_always_ok_at c live new Hcok) Hupd) as [Hcmp [_ [Hok1 [_ [_ [Hw _]]]]]].
-  pose proof (Hcok live new cmp Hcmp) as Hc.
+              (compare_ok_wf_at c live new Hcok Hwl Hwn) Hupd) as [Hcmp [_ [Hok1 [_ [_ [Hw _]]]]]].
+  pose proof (Hcok live new cmp Hwl Hwn Hcmp) as Hc.
   set (cur := match mf_get mgr mf1 with Some r => mr_set r | None => ps_empty_set end) in *.
   set (before := fun p => match mf_get mgr mf0 with Some r => ps_has p (mr_set r) | None => false end).
   assert (ps_ok cur = true /\ forall p, wf_path p = true -> ps_has p cur = before p) as [Hcur Hbefore].
@@ -715,28 +802,20 @@ Proof.
 Qed.
 
 Theorem apply_op_records_inv : forall c live cfg ver mf mgr force o mf',
-  no_ignore c -> compare_always_ok c -> fs_always_ok c -> records_inv mf ->
+  no_ignore c -> compare_ok_wf c -> fs_ok_wf c -> conv_wf c ->
+  wf_value (snd live) = true -> wf_value (snd cfg) = true -> records_inv mf ->
   apply_op c live cfg ver mf mgr force = UOk (o, mf') -> records_inv mf'.
 Proof.
-  intros c live cfg ver mf mgr force o mf' Hni Hcok Hfsok Hinv H.
-  unfold apply_op in H.
-  destruct (reconcile_managed c 0 live mf) as [[mf0 n0]|e] eqn:Hrec; [|discriminate].
+  intros c live cfg ver mf mgr force o mf' Hni Hcok Hfsok Hcv Hwl Hwc Hinv H.
+  destruct (reconcile_managed c 0 live mf) as [[mf0 n0]|e] eqn:Hrec.
+  2:{ unfold apply_op in H. rewrite Hrec in H. discriminate. }
   destruct (reconcile_records_inv c 0 live mf mf0 n0 Hinv Hrec) as [Hok0 _].
-  destruct (merge (schema_of c (fst live)) (tr_of c (fst live)) (snd live) (snd cfg))
-    as [[nv|]|]; [| discriminate | discriminate].
-  destruct (to_fs c cfg) as [set0|] eqn:Hfs; [|discriminate].
-  rewrite (no_ignore_filter c ver Hni) in H. cbn [filter_set] in H.
-  destruct (prune c n0 (fst live, nv) (mf_set mgr (mkRec set0 ver true) mf0) mgr (mf_get mgr mf0))
-    as [[pruned n1]|e]; [|discriminate].
-  destruct (update_core c n1 live pruned ver (mf_set mgr (mkRec set0 ver true) mf0) mgr force)
-    as [[[mf2 cmp] n2]|e] eqn:Hupd; [|discriminate].
-  assert (mf' = mf2) as Hmf'.
-  { destruct (negb (cfg_return_input_on_noop c) && veqb (snd live) (snd pruned));
-      inversion H; reflexivity. }
-  subst mf'. clear H.
+  destruct (apply_op_inv c live cfg ver mf mf0 n0 mgr force o mf' Hcv Hwl Hwc Hrec H)
+    as [set0 [f [pruned [n1 [cmp [n2 [Hfs [Hf [Hwp Hupd]]]]]]]]].
+  rewrite (no_ignore_filter c ver Hni) in Hf. inversion Hf; subst f. cbn [filter_set] in Hupd.
   assert (mf_ok (mf_set mgr (mkRec set0 ver true) mf0)) as Hok1.
-  { apply mf_set_ok; [exact Hok0|]. exact (Hfsok cfg set0 Hfs). }
-  destruct (update_core_shrinks_all c n1 live pruned ver _ mgr force mf2 cmp n2 Hok1 Hcok
+  { apply mf_set_ok; [exact Hok0|]. exact (Hfsok cfg set0 Hwc Hfs). }
+  destruct (update_core_shrinks_all c n1 live pruned ver _ mgr force mf' cmp n2 Hok1 Hcok Hcv Hwl Hwp
               (no_ignore_filters_ok c Hni) Hupd) as [_ [Hok2 [Hne2 _]]].
   split; assumption.
 Qed.
@@ -767,15 +846,16 @@ Proof.
 Qed.
 
 Theorem update_op_records_inv : forall c live new ver mf mgr o mf',
-  no_ignore c -> compare_always_ok c -> records_inv mf ->
+  no_ignore c -> compare_ok_wf c -> conv_wf c ->
+  wf_value (snd live) = true -> wf_value (snd new) = true -> records_inv mf ->
   update_op c live new ver mf mgr = UOk (o, mf') -> records_inv mf'.
 Proof.
-  intros c live new ver mf mgr o mf' Hni Hcok Hinv H.
+  intros c live new ver mf mgr o mf' Hni Hcok Hcv Hwl Hwn Hinv H.
   unfold update_op in H.
   destruct (reconcile_managed c 0 live mf) as [[mf0 n0]|e] eqn:Hrec; [|discriminate].
   destruct (reconcile_records_inv c 0 live mf mf0 n0 Hinv Hrec) as [Hok0 _].
   destruct (update_core c n0 live new ver mf0 mgr true) as [[[mf1 cmp] n1]|e] eqn:Hupd; [|discriminate].
-  destruct (update_core_shrinks_all c n0 live new ver mf0 mgr true mf1 cmp n1 Hok0 Hcok
+  destruct (update_core_shrinks_all c n0 live new ver mf0 mgr true mf1 cmp n1 Hok0 Hcok Hcv Hwl Hwn
               (no_ignore_filters_ok c Hni) Hupd) as [[cmp0 [f0 [_ [_ [_ Hc]]]]] [Hok1 [Hne1 _]]].
   rewrite (no_ignore_filter c ver Hni) in H. cbn [filter_set] in H.
   destruct (update_set_spec _ cmp (cur_ok mgr mf1 Hok1) Hc) as [Hok2 _].
@@ -859,42 +939,36 @@ Qed.
 
 (* stated from the reconciled map mf0 (what reconcile does to the records is C20) *)
 Theorem apply_op_never_owned : forall c live cfg ver mf mf0 n0 mgr force o mf',
-  exclusion_config c -> compare_always_ok c -> fs_always_ok c ->
+  exclusion_config c -> compare_ok_wf c -> fs_ok_wf c -> conv_wf c ->
+  wf_value (snd live) = true -> wf_value (snd cfg) = true ->
   reconcile_managed c O live mf = UOk (mf0, n0) -> records_inv mf0 -> never_owned c mf0 ->
   apply_op c live cfg ver mf mgr force = UOk (o, mf') -> never_owned c mf'.
 Proof.
-  intros c live cfg ver mf mf0 n0 mgr force o mf' Hex Hcok Hfsok Hrec [Hok0 _] Hno H.
-  unfold apply_op in H. rewrite Hrec in H.
-  destruct (merge (schema_of c (fst live)) (tr_of c (fst live)) (snd live) (snd cfg))
-    as [[nv|]|]; [| discriminate | discriminate].
-  destruct (to_fs c cfg) as [set0|] eqn:Hfs; [|discriminate].
-  destruct (exclusion_filter c ver Hex) as [f [Hf Hspec]]. rewrite Hf in H.
-  pose proof (Hspec set0 (Hfsok cfg set0 Hfs)) as Hspec0.
+  intros c live cfg ver mf mf0 n0 mgr force o mf' Hex Hcok Hfsok Hcv Hwl Hwc Hrec [Hok0 _] Hno H.
+  destruct (apply_op_inv c live cfg ver mf mf0 n0 mgr force o mf' Hcv Hwl Hwc Hrec H)
+    as [set0 [f [pruned [n1 [cmp [n2 [Hfs [Hf [Hwp Hupd]]]]]]]]].
+  destruct (exclusion_filter c ver Hex) as [f' [Hf' Hspec]]. rewrite Hf in Hf'. inversion Hf'; subst f'.
+  pose proof (Hspec set0 (Hfsok cfg set0 Hwc Hfs)) as Hspec0.
   set (mf1 := mf_set mgr (mkRec (filter_set f set0) ver true) mf0) in *.
-  destruct (prune c n0 (fst live, nv) mf1 mgr (mf_get mgr mf0)) as [[pruned n1]|e]; [|discriminate].
-  destruct (update_core c n1 live pruned ver mf1 mgr force) as [[[mf2 cmp] n2]|e] eqn:Hupd; [|discriminate].
-  assert (mf' = mf2) as Hmf'.
-  { destruct (negb (cfg_return_input_on_noop c) && veqb (snd live) (snd pruned));
-      inversion H; reflexivity. }
-  subst mf'. clear H.
   assert (mf_ok mf1) as Hok1.
   { unfold mf1. apply mf_set_ok; [exact Hok0|]. apply Hspec0. }
   assert (never_owned c mf1) as Hno1.
   { unfold mf1. eapply never_owned_set; [exact Hf|exact Hspec0|reflexivity|exact Hno]. }
-  destruct (update_core_shrinks_all c n1 live pruned ver mf1 mgr force mf2 cmp n2 Hok1 Hcok
+  destruct (update_core_shrinks_all c n1 live pruned ver mf1 mgr force mf' cmp n2 Hok1 Hcok Hcv Hwl Hwp
               (exclusion_filters_ok c Hex) Hupd) as [_ [_ [_ Hall]]].
   eapply never_owned_shrinks; eassumption.
 Qed.
 
 Theorem update_op_never_owned : forall c live new ver mf mf0 n0 mgr o mf',
-  exclusion_config c -> compare_always_ok c ->
+  exclusion_config c -> compare_ok_wf c -> conv_wf c ->
+  wf_value (snd live) = true -> wf_value (snd new) = true ->
   reconcile_managed c O live mf = UOk (mf0, n0) -> records_inv mf0 -> never_owned c mf0 ->
   update_op c live new ver mf mgr = UOk (o, mf') -> never_owned c mf'.
 Proof.
-  intros c live new ver mf mf0 n0 mgr o mf' Hex Hcok Hrec [Hok0 _] Hno H.
+  intros c live new ver mf mf0 n0 mgr o mf' Hex Hcok Hcv Hwl Hwn Hrec [Hok0 _] Hno H.
   unfold update_op in H. rewrite Hrec in H.
   destruct (update_core c n0 live new ver mf0 mgr true) as [[[mf1 cmp] n1]|e] eqn:Hupd; [|discriminate].
-  destruct (update_core_shrinks_all c n0 live new ver mf0 mgr true mf1 cmp n1 Hok0 Hcok
+  destruct (update_core_shrinks_all c n0 live new ver mf0 mgr true mf1 cmp n1 Hok0 Hcok Hcv Hwl Hwn
               (exclusion_filters_ok c Hex) Hupd) as [[cmp0 [f0 [_ [_ [_ Hc]]]]] [Hok1 [_ Hall]]].
   assert (never_owned c mf1) as Hno1 by (eapply never_owned_shrinks; eassumption).
   destruct (exclusion_filter c ver Hex) as [f [Hf Hspec]]. rewrite Hf in H.
@@ -906,4 +980,43 @@ Proof.
     destruct (String.eqb m mgr); [discriminate|]. eapply Hno1; eassumption.
   - eapply never_owned_set; [exact Hf|exact Hspec2|reflexivity|exact Hno1].
 Qed.
+
+(* ================= the hypotheses are satisfiable: ex_config ================= *)
+
+(* a configuration all of whose versions resolve to a schema_ok schema satisfies the two
+   walker hypotheses *)
+Lemma compare_ok_wf_of_schema_ok : forall c,
+  (forall ver, exists R, SchemaOk.schema_ok (schema_of c ver) R /\ R (tr_of c ver)) -> compare_ok_wf c.
+Proof.
+  intros c Hs a b cmp Ha Hb H. destruct (Hs (fst a)) as [R [Hok HR]].
+  unfold compare_tv in H. unfold cmp_ok.
+  exact (CompareLaws.compare_sets_ok _ R _ _ _ _ Hok HR Ha Hb H).
+Qed.
+
+Lemma fs_ok_wf_of_schema_ok : forall c,
+  (forall ver, exists R, SchemaOk.schema_ok (schema_of c ver) R /\ R (tr_of c ver)) -> fs_ok_wf c.
+Proof.
+  intros c Hs o fs Ho H. destruct (Hs (fst o)) as [R [Hok HR]].
+  unfold to_fs in H. exact (FieldSetWf.to_field_set_ok _ R _ _ _ Hok HR Ho H).
+Qed.
+
+Local Notation ex_config := Examples.ex_config.
+
+Lemma ex_config_schemas_ok : forall ver,
+  exists R, SchemaOk.schema_ok (schema_of ex_config ver) R /\ R (tr_of ex_config ver).
+Proof.
+  intros ver. exists ValidateLaws.ex_R. split; [exact ValidateLaws.ex_schema_ok|exact ValidateLaws.ex_rt_in_R].
+Qed.
+
+Theorem ex_config_compare_ok : compare_ok_wf ex_config.
+Proof. apply compare_ok_wf_of_schema_ok. exact ex_config_schemas_ok. Qed.
+
+Theorem ex_config_fs_ok : fs_ok_wf ex_config.
+Proof. apply fs_ok_wf_of_schema_ok. exact ex_config_schemas_ok. Qed.
+
+Theorem ex_config_conv_wf : conv_wf ex_config.
+Proof. intros n from to v v' Hv H. cbn in H. inversion H; subst v'. exact Hv. Qed.
+
+Theorem ex_config_no_ignore : no_ignore ex_config.
+Proof. split; reflexivity. Qed.
 
